@@ -15,6 +15,9 @@ import AsynqModel.Drv.Generator
 import AsynqModel.Drv.Tools
 import AsynqModel.Drv.Families4
 import AsynqModel.Drv.Families5
+import AsynqModel.Drv.Families6t
+import AsynqModel.Drv.Families6v
+import AsynqModel.Drv.Families6c
 open AsynqModel
 
 /-- dispatch one case to the model of its mode -/
@@ -76,6 +79,18 @@ def handleCase (mode : String) (id : Nat) (hdr body : List Sexp) : String :=
   | "callctx" => Drv.Families4.callctx id hdr body
   | "selfawait" => Drv.Families4.selfawait id hdr body
   | "optprog" => Drv.Families4.optprog id body
+  -- round-5 families (AsynqModel/Drv/Families6t.lean threads + priorities, Families6v.lean values, Families6c.lean contexts)
+  -- [6t]
+  | "crossthread" => Drv.Families6t.crossthread id hdr body
+  | "prioflush" => Drv.Families6t.prioflush id hdr body
+  | "reawait" => Drv.Families6t.reawait id hdr body
+  -- [6v]
+  | "valuekinds" => Drv.Families6v.valuekinds id hdr body
+  | "equalreceivers" => Drv.Families6v.equalreceivers id hdr body
+  -- [6c]
+  | "composite" => Drv.Families6c.composite id hdr body
+  | "hookenter" => Drv.Families6c.hookenter id hdr body
+  | "afterthrow" => Drv.Families6c.afterthrow id hdr body
   | "futures" => Drv.Futures.handle id hdr body
   | "futsubs" => Drv.Futures.handleSubs id hdr body
   | "futcopy" => Drv.Futures.handleCopy id hdr body
